@@ -123,6 +123,13 @@ func AddStandardFilters(fd FilterDictionary) { //nolint: gocyclo
 			}
 			return a / b, nil
 		}
+		divUint := func(a float64, b uint64) (int64, error) {
+			if b > math.MaxInt64 {
+				// beyond the range of int64: the quotient is -1, 0 or 1
+				return int64(a / float64(b)), nil
+			}
+			return divInt(int64(a), int64(b))
+		}
 		switch q := b.(type) {
 		case int:
 			return divInt(int64(a), int64(q))
@@ -135,7 +142,7 @@ func AddStandardFilters(fd FilterDictionary) { //nolint: gocyclo
 		case int64:
 			return divInt(int64(a), q)
 		case uint:
-			return divInt(int64(a), int64(q))
+			return divUint(a, uint64(q))
 		case uint8:
 			return divInt(int64(a), int64(q))
 		case uint16:
@@ -143,7 +150,7 @@ func AddStandardFilters(fd FilterDictionary) { //nolint: gocyclo
 		case uint32:
 			return divInt(int64(a), int64(q))
 		case uint64:
-			return divInt(int64(a), int64(q))
+			return divUint(a, q)
 		case float32:
 			return divFloat(a, float64(q))
 		case float64:
